@@ -1,4 +1,5 @@
 import RsslVerif.Model.SourceMap
+import RsslVerif.Model.TriviaLexer
 import RsslVerif.Driver.Util
 /-! Line-protocol front end of the C14 model (source manager, message printer, edit arithmetic). -/
 namespace RsslVerif.Driver.C14
@@ -39,6 +40,40 @@ def parseSev (s : String) : Option Severity :=
   if s == "error" then some .Error else if s == "note" then some .Note else none
 
 def replaceAt {α : Type} (l : List α) (i : Nat) (a : α) : List α := l.set i a
+
+/-! rendering of lexer tokens (the harness prints the real tokens the same way) -/
+open RsslVerif.Model.Lexer in
+def hexPad (width n : Nat) : String :=
+  let rec go : Nat → Nat → List Char → List Char
+    | 0, _, acc => acc
+    | k + 1, n, acc => go k (n / 16) (hexNibble (n % 16) :: acc)
+  String.ofList (go width n [])
+
+open RsslVerif.Model.Lexer in
+def showFb : FollowedBy → String
+  | .token => "T"
+  | .whitespace => "W"
+
+open RsslVerif.Model.Lexer in
+def showTok : Token → String
+  | .simple s => s.name
+  | .id n => "Id:" ++ hex n
+  | .litInt v => "Int:" ++ toString v
+  | .litIntU32 v => "IntU32:" ++ toString v
+  | .litIntU64 v => "IntU64:" ++ toString v
+  | .litIntS64 v => "IntS64:" ++ toString v
+  | .litFloat b => "Float:" ++ hexPad 16 b
+  | .litFloat16 b => "Float16:" ++ hexPad 8 b
+  | .litFloat32 b => "Float32:" ++ hexPad 8 b
+  | .litFloat64 b => "Float64:" ++ hexPad 16 b
+  | .litString s => "String:" ++ hex s
+  | .reservedWord s => "ReservedWord:" ++ hex s
+  | .headerName s => "HeaderName:" ++ hex s
+  | .leftAngle f => "LeftAngleBracket:" ++ showFb f
+  | .rightAngle f => "RightAngleBracket:" ++ showFb f
+
+def showSpanned (t : RsslVerif.Model.Trivia.Spanned RsslVerif.Model.TriviaLexer.LTok) : String :=
+  showTok t.tok.1 ++ " " ++ toString t.start ++ " " ++ toString t.stop
 
 def handle (op : String) (args : List String) : String :=
   match op, args with
@@ -87,6 +122,16 @@ def handle (op : String) (args : List String) : String :=
           | _, _, _, _ => "bad-request"
         | _ => "unsupported: diagnostic without a decodable position"
     | _, _, _ => "bad-request"
+  -- the lexer alone: the token list (kinds, payloads, spans) and verdict of the edited text
+  | "C14.lex", [text, edits, _tag] =>
+    match unhex? text, parseEdits edits with
+    | some bytes, some es =>
+      let r := RsslVerif.Model.TriviaLexer.lexAll (applyEdits bytes es)
+      let toks := ";".intercalate (r.1.map showSpanned)
+      match r.2 with
+      | none => toks
+      | some (reason, off) => toks ++ " !err " ++ reason.name ++ " " ++ toString off
+    | _, _ => "bad-request"
   | "C14.disk", _ => "unsupported: files live on disk"
   | _, _ => "unsupported-op"
 
